@@ -237,6 +237,7 @@ def clause3_typing(ctx, P):
 def clause4_commit(ctx, P, cg):
     commit_prims = {"element_table_put", "element_table_remove", "hashtable_put_element_table",
                     "hashtable_remove_element_table"}
+    outset = Q.make_outset(ctx, P, cg)
     handlers = ["element.c:add_element_to_peer", "element.c:remove_element_from_peer", "element.c:change_state",
                 "element.c:set_or_call"]
     for hk in handlers:
@@ -245,7 +246,7 @@ def clause4_commit(ctx, P, cg):
         nviol = 0
         nerr = 0
         for v in views:
-            rt = Q.ret_value_term(v)
+            rt = Q.ret_value_term(v, outset)
             if rt is None:
                 continue
             is_ok = Q.is_call_to(rt, OK_CTORS) or rt == ("null",)
